@@ -120,7 +120,11 @@ func populateRawPublicKey(pk *PublicKey) (map[string]interface{}, error) {
 	rawPK := make(map[string]interface{})
 	rawPK[jsonldID] = pk.ID
 	rawPK[jsonldType] = pk.Type
-	rawPK[jsonldPurposes] = pk.Purposes
+
+	// a key without purposes is a general key; an empty (null) purposes member would be refused
+	if len(pk.Purposes) > 0 {
+		rawPK[jsonldPurposes] = pk.Purposes
+	}
 
 	jwkBytes, err := pk.JWK.MarshalJSON()
 
